@@ -433,18 +433,18 @@ func parent(id, tier string) int {
 
 	// evidence
 	cov := map[string]any{
-		"evaluations":         evals,
-		"distinct_nontrivial": len(hashes),
-		"rule":                mon.Rule(),
-		"samples":             samples,
-		"counters":            counters,
-		"batches":             sz.Batches,
-		"child_processes":     sz.Batches,
-		"cases_per_batch":     sz.Cases,
-		"known_findings_observed": knownSeen,
-		"new_violation_signatures": sigs,
+		"evaluations":               evals,
+		"distinct_nontrivial":       len(hashes),
+		"rule":                      mon.Rule(),
+		"samples":                   samples,
+		"counters":                  counters,
+		"batches":                   sz.Batches,
+		"child_processes":           sz.Batches,
+		"cases_per_batch":           sz.Cases,
+		"known_findings_observed":   knownSeen,
+		"new_violation_signatures":  sigs,
 		"observation_floors_missed": floors,
-		"inconclusive_reasons": inconclusive,
+		"inconclusive_reasons":      inconclusive,
 	}
 	setSizes := map[string]int{}
 	for k, m := range sets {
